@@ -102,12 +102,15 @@ func runSolver(ctx context.Context, sp solverSpec, file string, timeoutS int) (s
 	cctx, cancel := context.WithTimeout(ctx, time.Duration(timeoutS+2)*time.Second)
 	defer cancel()
 	cmd := exec.CommandContext(cctx, args[0], args[1:]...)
-	var out bytes.Buffer
+	var out, errb bytes.Buffer
 	cmd.Stdout = &out
-	cmd.Stderr = &out
+	cmd.Stderr = &errb
 	err := cmd.Run()
 	secs = time.Since(t0).Seconds()
 	raw = out.String()
+	if raw == "" {
+		raw = errb.String()
+	}
 	first := strings.TrimSpace(strings.SplitN(raw, "\n", 2)[0])
 	switch first {
 	case "unsat", "sat", "unknown":
